@@ -278,6 +278,9 @@ func requestWithCookieLines(lines []string) *http.Request {
 }
 
 func (w *world) loadCode(pk int, req *http.Request, gs []gen) int {
+	if w.stores[pk] == nil {
+		return 2
+	}
 	sess, err := w.stores[pk].LoadSession(req)
 	switch {
 	case err == sessions.ErrInvalidSession && sess == nil:
@@ -376,8 +379,12 @@ const (
 var runNames = []string{"marshal-session", "marshal-state", "save-session", "shared-cipher"}
 
 func (w *world) longRun(r *c.Rng, kind, n int, vals []value) xcase {
-	ci, err := aead.NewMiscreantCipher(c.FixedSecret)
-	c.Must(err)
+	var ci aead.Cipher
+	if mc, err := aead.NewMiscreantCipher(c.FixedSecret); sutOK("aead.NewMiscreantCipher(32-byte secret)", err) {
+		ci = mc
+	} else {
+		ci = brokenCipher{err}
+	}
 	if kind == runShared {
 		ci = w.ciphers[1]
 	}
@@ -385,7 +392,9 @@ func (w *world) longRun(r *c.Rng, kind, n int, vals []value) xcase {
 		cs.CookieCipher = ci
 		return nil
 	})
-	c.Must(err)
+	if !sutOK("sessions.NewCookieStore", err) {
+		store = &sessions.CookieStore{Name: cookieName, CookieCipher: ci}
+	}
 	lastAt := map[string]int{}
 	pairs := map[string]bool{}
 	minDist := -1
@@ -397,7 +406,10 @@ func (w *world) longRun(r *c.Rng, kind, n int, vals []value) xcase {
 		if kind == runSave {
 			rec := httptest.NewRecorder()
 			req := httptest.NewRequest("GET", "http://app.example.test/", nil)
-			c.Must(store.SaveSession(rec, req, v.sess))
+			if serr := store.SaveSession(rec, req, v.sess); serr != nil {
+				allRT = false
+				continue
+			}
 			cks := rec.Result().Cookies()
 			if len(cks) != 1 || cks[0].Name != cookieName {
 				allRT = false
@@ -412,7 +424,10 @@ func (w *world) longRun(r *c.Rng, kind, n int, vals []value) xcase {
 			}
 		} else {
 			s, err = ci.Marshal(v.iface())
-			c.Must(err)
+			if err != nil {
+				allRT = false
+				continue
+			}
 			got := v.fresh()
 			if uerr := ci.Unmarshal(s, got); uerr != nil || !equalValue(v, got) {
 				allRT = false
